@@ -219,7 +219,7 @@ var endpoints = []endpoint{
 	{"EUserinfo", "/userinfo", "", "access_token"},
 }
 
-var basics = []string{"BNone", "BOk", "BBadId", "BBadSecret", "BMalformed"}
+var basics = []string{"BNone", "BOk", "BBadId", "BBadSecret", "BMalformed", "BEmptySecret"}
 var entries = []string{"ViaProvider", "ViaLegacy", "Direct"}
 
 type shape struct {
@@ -306,6 +306,8 @@ func (g *gen) shapeRequest(s shape) *http.Request {
 		req.Header.Set("Authorization", basicHeader(drv.Pick(r, []string{"we%zzb", "%", "web%2"}), "web-secret"))
 	case "BBadSecret":
 		req.Header.Set("Authorization", basicHeader("web", drv.Pick(r, []string{"se%zz", "%", "s%u0041"})))
+	case "BEmptySecret":
+		req.Header.Set("Authorization", basicHeader(drv.Pick(r, []string{"web", "native", "pkjwt", "nobody"}), ""))
 	case "BMalformed":
 		req.Header.Set("Authorization", drv.Pick(r, []string{"Basic %%%", "Basic " + base64.StdEncoding.EncodeToString([]byte("nocolon")), "Basic", "Digest abc", "Basic "}))
 	}
